@@ -68,6 +68,16 @@ Inv_FxpAssert ==
         /\ (E.out = "ok" => AssertRel(E.name, RA, RB))
         /\ ((AssertRel(E.name, RA, RB) /\ AssertGap(E.name, RA, RB) < 2 ^ Tr.bitlength) => E.out = "ok")
 
+\* an integer's or boolean's assertion method with a fixed-point operand: whatever the library decides to do with the combination,
+\* it never ACCEPTS a statement that is false for the represented numbers (n vs b / 2^r, i.e. n * 2^r vs the representation b)
+Inv_IntFxpAssert ==
+    (l >= 1 /\ ~Tr.ign /\ ~E.gfalse /\ E.op = "meth" /\ E.out = "ok" /\ Len(E.args) >= 2 /\ Len(E.args[1]) = 1 /\ Len(E.args[2]) = 1
+        /\ A1.k \in {"int", "bool"} /\ A2.k = "fxp" /\ ~A1.w /\ ~A2.w) =>
+        CASE E.name \in {"assert_lt", "assert_le", "assert_gt", "assert_ge", "assert_eq", "assert_ne"} -> AssertRel(E.name, A1.v * Scale(RES), A2.v)
+          [] E.name = "assert_range" -> (Len(E.args) = 3 /\ Len(E.args[3]) = 1 /\ E.args[3][1].k = "fxp")
+                                          => (A2.v <= A1.v * Scale(RES) /\ A1.v * Scale(RES) < E.args[3][1].v)
+          [] OTHER -> TRUE
+
 \* unary operators and reading a value back
 Inv_FxpUn ==
     (Judged /\ Len(E.args) = 1 /\ Len(E.args[1]) = 1 /\ A1.k = "fxp" /\ ~A1.w /\ Len(E.res) = 1) =>
